@@ -10,9 +10,12 @@ VARIABLES assign, split, scen
 
 E(par, prop, form, ty, n) == [par |-> par, prop |-> prop, form |-> form, v |-> [ty |-> ty, n |-> n, m |-> 0]]
 Base == {E("mp", "value", "B", "int", 6), E("n", "value", "B", "int", 10)}
+MP == E("mp", "value", "B", "int", 6)
 NodeCfgs == <<
-  Base \cup {E("a", "value", "P", "int", 100)},                                   \* 1 healthy, writes a and n
-  Base \cup {E("a", "max", "P", "int", 120), E("b", "value", "B", "int", 10),      \* 2 healthy, limit overrides; the
+  {MP, E("n", "value", "B", "float", 13), E("a", "value", "P", "int", 100)},      \* 1 healthy, writes a and n; the driver
+                                                                                  \*   refuses n = 6.5 (still exactly once)
+  {MP, E("n", "value", "B", "float", 15), E("export", "value", "B", "bool", 0),    \* 2 healthy, not exported, driver bug on n,
+   E("a", "max", "P", "int", 120), E("b", "value", "B", "int", 10),                \*   limit overrides; the
              E("s", "value", "P", "str", 24), E("s", "max", "P", "int", 64)},       \*   string only fits the overridden maxchars
   Base \cup {E("a", "value", "B", "int", 300)},                                   \* 3 outside (loose)
   Base \cup {E("a", "value", "B", "str", 0)},                                     \* 4 wrong type
